@@ -21,7 +21,9 @@ DATAGRAMS = [b'{"SECoP": "discover"}', b'{"SECoP":"discover","x":1}', b'{"SECoP"
              b'"SECoP"', b'true', b'{"SECoP": "discover"', b'', b'\xff\xfe', b'{"SECoP": "disc\xe9ver"}', b'x' * 1024, b'[1, 2', b'{"secop": "discover"}',
              b' {"SECoP": "discover"} ', b'{"SECoP": "discover"}\n', b'1e999', b'NaN',
              # longer than the receive buffer of the unchanged code (the fake socket truncates like UDP does)
-             b'[' * 1500, b'{"a":' * 400]
+             b'[' * 1500, b'{"a":' * 400,
+             # the same request in other legal JSON spellings
+             b'{"SECoP": "disc\\u006fver"}', b'{"\\u0053ECoP": "discover"}', b'{"SECoP"\t:\n"discover"}']
 
 
 class FakeSocketModule:
